@@ -30,6 +30,10 @@ func RunC13Sweep(p *Plan, env *Env) *RunResult {
 	if len(res.Violations) > 0 || res.Harness != "" {
 		return res
 	}
+	if p.Knobs.SparseObserve {
+		// a bulk plan (thousands of rows): no sweep, see profiles.go bulk()
+		return res
+	}
 	counts := res.EvCounts
 	kindOf := func(i int) string {
 		if i < len(res.StmtClass) {
@@ -285,6 +289,12 @@ func RunLRUDrive(seed uint64, thorough bool, env *Env) *RunResult {
 			capacity = r.Range(4, 80)
 			if r.Chance(0.3) {
 				capacity = []int{15, 16, 17, 31, 32, 33, 34, 63, 64, 65, 66, 127, 128, 129, 130, 255, 257, 300, 513}[r.Intn(19)]
+			}
+			if r.Chance(0.004) {
+				// beyond the next powers of two as well (each such sequence costs
+				// about a second: the model is a plain list)
+				capacity = []int{1023, 1025, 1030, 1500, 2049, 2100, 4097}[r.Intn(7)]
+				res.Stats["lrudrive_phased_big_seqs"]++
 			}
 			l = storage.NewLRU(capacity)
 			w.AttachLRUModel(l)
